@@ -86,6 +86,13 @@ CHECKS = {
         "array and payload delimitation, padding, optionals, nested structs) and child views test their constraints; "
         "Builder::Serialize / GetSize and the runtime templates are compared with the reference encoding. Functions with "
         "compile errors are C10's and are skipped (counted).", ref="7/C14"),
+ "C19": dict(level="translation_validation", technique="abstract interpretation of javac's attributed syntax trees of every emitted Java class (signed-integer semantics) + layout comparison with the reference model",
+   text="The Java backend (pdl-compiler built with the `java` feature inside pdlgen) is run over the corpus; javac's trees of "
+        "the emitted classes are evaluated symbolically, never compiled to bytecode or run: Utils.getNN/putNN bit by bit; "
+        "fromBytes/fromPayload read the reference layout and no wire value reaches an array length, loop bound, slice length, "
+        "remaining size or field through a sign-keeping widening; toBytes writes the reference layout of the declaration's "
+        "own fields and hands children to the parent; fieldWidth() equals the bytes written. Exceptions are rejections.",
+   ref="7/C19"),
  "C07": dict(level="translation_validation", technique="pairwise comparison of layouts extracted from the Rust and Python backends; sentinel agreement rule over all backend sources",
    text="For every corpus declaration supported by both backends the parser layouts and the serializer layouts extracted "
         "from emitted Rust and emitted Python are compared directly (not via the reference); every comparison of a size "
@@ -98,8 +105,6 @@ CHECKS = {
         "scan) agree across analyzer.rs and ast.rs. Schema entries no backend consumes are not decided.", ref="7/C16"),
 }
 NOT_APPLICABLE = {
- "C19": "Java backend: no Java front-end to the abstract interpreter can be built and validated in this sandbox "
-        "(see DESIGN.md section 8); not claimed.",
 }
 def main():
     props = [json.loads(l)["id"] for l in open(os.path.join(HERE, "properties.jsonl"))]
